@@ -121,7 +121,11 @@ def _chooser(case):
 
           def handler(n=n):
             if not test_descriptor.Test.TEST_INSTANCES:
-              return      # no test is registered (before / after the run): not an abort of a running test
+              # no test is registered (before / after the run): not an abort of a running test - unless the run's
+              # executor thread is already (still) going: then the operator's SIGINT is lost on a running test
+              if any(t.name.startswith('TestExecutor') and t.started and not t.finished for t in s.threads):
+                s.events.append(('main', 'h', None, 'X:sigint-not-routed-to-the-running-test'))
+              return
             s.events.append(('main', 'abort-call', None, n + 1))
             try:
               test_descriptor.Test.handle_sig_int(signal.SIGINT, None)
@@ -356,12 +360,15 @@ def run_real(case):
   if prog.get('start') is not None:
     kinds[prog['start']['id']] = 'x'
   toks = []
+  lost_sigint = []
   ex = None
   nac = nar = 0
   for pos, (th, op, obj, extra) in enumerate(s.events):
     if op == 'h':
       e = extra
-      if e.startswith('eb'):
+      if e.startswith('X:'):
+        lost_sigint.append(e)
+      elif e.startswith('eb'):
         pid = int(e[2:].split('.')[0])
         toks.append((pos, 'bs:%d:%s' % (pid, kinds.get(pid, 'm'))))
       elif e.startswith('ee'):
@@ -412,6 +419,7 @@ def run_real(case):
       rec_facts.append('X:record-not-final')
   elif status == 'returned':
     rec_facts.append('X:no-record-handed-to-callbacks')
+  rec_facts += sorted(set(lost_sigint))
   for e in out['log']:
     if e and e[0] == 'aux-exc':
       # abort() reports nothing to the operator's thread; an exception out of it (e.g. from kill()) is a failure
